@@ -13,24 +13,99 @@ Import ListNotations.
 
 (** * The class survives GRPCWrap and the boundary; no other class appears *)
 
-(* full statement: every class c with a code, every context x (any depth, any
-   texts, any number of embeds), every class c' *)
+(* Error values are wrapping TREES: besides the layers with one wrapped
+   operand (fmt.Errorf with one %w, EmbedObject, a custom type with
+   Unwrap() error) there are layers with several operands (fmt.Errorf with
+   several %w verbs, errors.Join, Unwrap() []error), [Multi].  errors.Is
+   walks the tree depth-first; [classes_of e] lists the classes it can find. *)
+Theorem C19_is_chain_classes :
+  forall (e : err) (c : class),
+    is_chain e c = existsb (fun c0 => class_eqb c0 c) (classes_of e).
+Proof. exact is_chain_classes. Qed.
+Print Assumptions C19_is_chain_classes.
+
+(* most general statement: every class c with a code, every tree e that
+   contains no status error and in which errors.Is can find the class c (at
+   least once: [the_class]) and no other class ([uniform]), every class c'.
+   "Exactly one class per tree" is the well-formedness condition: with two
+   different classes in one tree the result of GRPCStatusCode depends on the
+   order in which Go ranges over the map errorsToCode
+   (C19_ex_two_classes_order_dependent below). *)
+Theorem C19_class_survives_tree :
+  forall (T : tables), tables_ok T = true ->
+  forall (e : err) (c : class) (k : code) (c' : class),
+    inner_status e = None -> uniform e = true -> the_class e = Some c ->
+    to_code T c = Some k ->
+    Is_o T (grpc_wrap T e) c' = class_eqb c' c.
+Proof. exact class_survives_tree. Qed.
+Print Assumptions C19_class_survives_tree.
+
+(* the same with the tree given as a wrapping context x around the sentinel: a
+   path of layers (any depth, any texts, any number of embeds), where a layer
+   with several operands carries its other operands; [ctx_sides_ok x]: these
+   side operands bring neither a class nor a status error (io.EOF,
+   errors.New, context.Canceled, wrapped / joined ones ...) *)
 Theorem C19_class_survives :
   forall (T : tables), tables_ok T = true ->
   forall (c : class) (k : code) (x : ctx) (c' : class),
+    ctx_sides_ok x = true ->
     to_code T c = Some k ->
     Is_o T (grpc_wrap T (plug x (Sentinel c))) c' = class_eqb c' c.
 Proof. exact class_survives. Qed.
 Print Assumptions C19_class_survives.
 
+(* what [ctx_sides_ok] means: the sentinel in the hole is the only class of the tree, and there is no status error *)
+Theorem C19_one_class_per_tree :
+  forall (x : ctx) (e : err),
+    ctx_sides_ok x = true ->
+    classes_of (plug x e) = classes_of e /\ inner_status (plug x e) = inner_status e.
+Proof. exact one_class_per_tree. Qed.
+Print Assumptions C19_one_class_per_tree.
+
+(* the statement for chains (every layer has one operand): no side condition *)
+Theorem C19_linear_sides_ok :
+  forall x : ctx, ctx_linear x = true -> ctx_sides_ok x = true.
+Proof. exact linear_sides_ok. Qed.
+Print Assumptions C19_linear_sides_ok.
+
+Theorem C19_class_survives_linear :
+  forall (T : tables), tables_ok T = true ->
+  forall (c : class) (k : code) (x : ctx) (c' : class),
+    ctx_linear x = true ->
+    to_code T c = Some k ->
+    Is_o T (grpc_wrap T (plug x (Sentinel c))) c' = class_eqb c' c.
+Proof. exact class_survives_linear. Qed.
+Print Assumptions C19_class_survives_linear.
+
 Theorem C19_class_survives_std :
   forall (c : class) (x : ctx) (c' : class),
+    ctx_sides_ok x = true ->
     In c [ErrExist; ErrNotExist; ErrInvalid; ErrNotAuthorized; ErrDataLoss; ErrInternal;
           ErrConflict; ErrExhausted; ErrUnimplemented; ErrCanceled] ->
     Is_o std_tables (grpc_wrap std_tables (plug x (Sentinel c))) c' = class_eqb c' c /\
     Is_o std_tables (transport_o (grpc_wrap std_tables (plug x (Sentinel c)))) c' = class_eqb c' c.
 Proof. exact std_class_survives. Qed.
 Print Assumptions C19_class_survives_std.
+
+Theorem C19_class_survives_std_linear :
+  forall (c : class) (x : ctx) (c' : class),
+    ctx_linear x = true ->
+    In c [ErrExist; ErrNotExist; ErrInvalid; ErrNotAuthorized; ErrDataLoss; ErrInternal;
+          ErrConflict; ErrExhausted; ErrUnimplemented; ErrCanceled] ->
+    Is_o std_tables (grpc_wrap std_tables (plug x (Sentinel c))) c' = class_eqb c' c /\
+    Is_o std_tables (transport_o (grpc_wrap std_tables (plug x (Sentinel c)))) c' = class_eqb c' c.
+Proof. exact std_class_survives_linear. Qed.
+Print Assumptions C19_class_survives_std_linear.
+
+Theorem C19_class_survives_std_tree :
+  forall (e : err) (c : class) (c' : class),
+    inner_status e = None -> uniform e = true -> the_class e = Some c ->
+    In c [ErrExist; ErrNotExist; ErrInvalid; ErrNotAuthorized; ErrDataLoss; ErrInternal;
+          ErrConflict; ErrExhausted; ErrUnimplemented; ErrCanceled] ->
+    Is_o std_tables (grpc_wrap std_tables e) c' = class_eqb c' c /\
+    Is_o std_tables (transport_o (grpc_wrap std_tables e)) c' = class_eqb c' c.
+Proof. exact std_class_survives_tree. Qed.
+Print Assumptions C19_class_survives_std_tree.
 
 (* the listed classes are exactly the ones with a row in errorsToCode *)
 Theorem C19_classes_with_code_std :
@@ -45,22 +120,42 @@ Print Assumptions C19_classes_with_code_std.
 Theorem C19_transport_wrapped :
   forall (T : tables), tables_ok T = true ->
   forall (x : ctx) (c : class),
+    ctx_sides_ok x = true ->
     transport_o (grpc_wrap T (plug x (Sentinel c))) = grpc_wrap T (plug x (Sentinel c)).
 Proof. exact transport_wrapped. Qed.
 Print Assumptions C19_transport_wrapped.
 
+Theorem C19_transport_wrapped_tree :
+  forall (T : tables), tables_ok T = true ->
+  forall (e : err) (c : class),
+    inner_status e = None -> uniform e = true -> the_class e = Some c ->
+    transport_o (grpc_wrap T e) = grpc_wrap T e.
+Proof. exact transport_wrapped_tree. Qed.
+Print Assumptions C19_transport_wrapped_tree.
+
 Theorem C19_wrapped_code :
   forall (T : tables), tables_ok T = true ->
   forall (c : class) (k : code) (x : ctx),
+    ctx_sides_ok x = true ->
     to_code T c = Some k ->
     grpc_status_code_o T (grpc_wrap T (plug x (Sentinel c))) = k.
 Proof. exact wrapped_code. Qed.
 Print Assumptions C19_wrapped_code.
 
+Theorem C19_wrapped_code_tree :
+  forall (T : tables), tables_ok T = true ->
+  forall (e : err) (c : class) (k : code),
+    inner_status e = None -> uniform e = true -> the_class e = Some c ->
+    to_code T c = Some k ->
+    grpc_status_code_o T (grpc_wrap T e) = k.
+Proof. exact wrapped_code_tree. Qed.
+Print Assumptions C19_wrapped_code_tree.
+
 (** Appendix C of DESIGN.md: the two classes without a code travel as Internal
     and come back as ErrInternal *)
 Theorem C19_class_without_code_std :
   forall (c : class) (x : ctx) (c' : class),
+    ctx_sides_ok x = true ->
     ~ In c [ErrExist; ErrNotExist; ErrInvalid; ErrNotAuthorized; ErrDataLoss; ErrInternal;
             ErrConflict; ErrExhausted; ErrUnimplemented; ErrCanceled] ->
     (c = ErrClosed \/ c = ErrCommunication) /\
@@ -74,6 +169,7 @@ Print Assumptions C19_class_without_code_std.
     gives to Unknown (ErrCommunication) *)
 Theorem C19_Is_before_wrap :
   forall (T : tables) (x : ctx) (c c' : class),
+    ctx_sides_ok x = true ->
     Is T (plug x (Sentinel c)) c' =
     class_eqb c c' || match from_code T Unknown with Some c0 => class_eqb c0 c' | None => false end.
 Proof. exact Is_plain_chain. Qed.
@@ -102,9 +198,61 @@ Example C19_ex_class_survives_instance :
   Is_o std_tables (grpc_wrap std_tables (plug C19_ex_ctx (Sentinel ErrConflict))) ErrInternal = false.
 Proof.
   split.
-  - exact (proj1 (C19_class_survives_std ErrConflict C19_ex_ctx ErrConflict ltac:(cbn; tauto))).
-  - exact (proj1 (C19_class_survives_std ErrConflict C19_ex_ctx ErrInternal ltac:(cbn; tauto))).
+  - exact (proj1 (C19_class_survives_std_linear ErrConflict C19_ex_ctx ErrConflict eq_refl ltac:(cbn; tauto))).
+  - exact (proj1 (C19_class_survives_std_linear ErrConflict C19_ex_ctx ErrInternal eq_refl ltac:(cbn; tauto))).
 Qed.
+
+(** a wrapping tree: fmt.Errorf("outer: %w", fmt.Errorf("request failed: %w (cleanup: %w)",
+    EmbedObject(o, errors.Join(errors.New("first"), <hole>)), io.EOF)), with a custom Is-method leaf as well *)
+Definition C19_ex_eof : err := Plain [Text [69; 79; 70]%N].                         (* io.EOF *)
+Definition C19_ex_tree_ctx : ctx :=
+  [FWrap [Text [111; 117; 116; 101; 114]%N];                                         (* "outer" *)
+   FMulti [Text [114; 101; 113; 58; 32]%N] [] [Text [32; 40]%N] [(C19_ex_eof, [Text [41]%N])];
+   FEmbed C19_ex_obj;
+   FMulti [] [(Plain [Text [102; 105; 114; 115; 116]%N], [Text [10]%N])] [] []].     (* errors.Join(errors.New("first"), _) *)
+
+Example C19_ex_tree_hypotheses :
+  ctx_sides_ok C19_ex_tree_ctx = true /\ ctx_linear C19_ex_tree_ctx = false /\
+  ctx_marker_free C19_ex_tree_ctx = true /\ ctx_embeds C19_ex_tree_ctx = [C19_ex_obj] /\
+  classes_of (plug C19_ex_tree_ctx (Sentinel ErrConflict)) = [ErrConflict] /\
+  build C19_ex_tree_ctx (Sentinel ErrConflict) = Some (plug C19_ex_tree_ctx (Sentinel ErrConflict)).
+Proof. vm_compute. repeat split; reflexivity. Qed.
+
+Example C19_ex_tree_class_survives :
+  filter (Is_o std_tables (grpc_wrap std_tables (plug C19_ex_tree_ctx (Sentinel ErrConflict)))) all_classes = [ErrConflict] /\
+  Is_o std_tables (grpc_wrap std_tables (plug C19_ex_tree_ctx (Sentinel ErrConflict))) ErrInternal = false.
+Proof.
+  split; [vm_compute; reflexivity|].
+  exact (proj1 (C19_class_survives_std ErrConflict C19_ex_tree_ctx ErrInternal eq_refl ltac:(cbn; tauto))).
+Qed.
+
+(* a tree that is not of the form "context around a sentinel": the class stands twice, once as a leaf of
+   another type with an Is method (syscall.EEXIST), below a join *)
+Definition C19_ex_tree : err :=
+  Multi [] [(Wrap [Text [97]%N] (IsLeaf ErrExist [Text [102; 105; 108; 101]%N]), [Text [10]%N]);
+            (C19_ex_eof, [Text [10]%N]);
+            (Embed C19_ex_obj (Sentinel ErrExist), [])].
+
+Example C19_ex_tree_general :
+  inner_status C19_ex_tree = None /\ uniform C19_ex_tree = true /\ the_class C19_ex_tree = Some ErrExist /\
+  classes_of C19_ex_tree = [ErrExist; ErrExist] /\
+  filter (Is_o std_tables (grpc_wrap std_tables C19_ex_tree)) all_classes = [ErrExist].
+Proof. vm_compute. repeat split; reflexivity. Qed.
+
+(* the well-formedness condition cannot be dropped: with two different classes in one tree the answer
+   depends on the order of the rows (in Go: on the iteration order of the map errorsToCode) *)
+Example C19_ex_two_classes_order_dependent :
+  let e := Multi [] [(Sentinel ErrExist, [Text [10]%N]); (Sentinel ErrNotExist, [])] in
+  let T' := mkTables (t_c2e std_tables) (rev (t_e2c std_tables)) (t_def_class std_tables) (t_def_code std_tables) in
+  uniform e = false /\ tables_ok T' = true /\
+  grpc_status_code std_tables e = AlreadyExists /\ grpc_status_code T' e = NotFound.
+Proof. vm_compute. repeat split; reflexivity. Qed.
+
+(* nor can "no status error among the side operands": status.Code finds it and GRPCWrap returns the tree as it is *)
+Example C19_ex_status_side :
+  let e := Multi [] [(Sentinel ErrExist, [Text [10]%N]); (Status NotFound [], [])] in
+  grpc_wrap std_tables e = Some e /\ filter (Is std_tables e) all_classes = [ErrExist; ErrNotExist].
+Proof. vm_compute. split; reflexivity. Qed.
 
 Example C19_ex_without_code :
   filter (Is_o std_tables (grpc_wrap std_tables (plug C19_ex_ctx (Sentinel ErrClosed)))) all_classes = [ErrInternal] /\
@@ -165,14 +313,25 @@ Proof. vm_compute. repeat split; reflexivity. Qed.
 
 (** * The embedded object survives *)
 
+(* x: a path through a wrapping tree; [ctx_marker_free] also demands that the
+   texts of the side operands contain no marker *)
 Theorem C19_embed_survives :
   forall (T : tables), tables_ok T = true ->
   forall (x : ctx) (c : class) (o : obj),
-    ctx_marker_free x = true -> ctx_embeds x = [o] ->
+    ctx_sides_ok x = true -> ctx_marker_free x = true -> ctx_embeds x = [o] ->
     extract_o (grpc_wrap T (plug x (Sentinel c))) = Some o /\
     extract_o (transport_o (grpc_wrap T (plug x (Sentinel c)))) = Some o.
 Proof. exact embed_survives. Qed.
 Print Assumptions C19_embed_survives.
+
+Theorem C19_embed_survives_linear :
+  forall (T : tables), tables_ok T = true ->
+  forall (x : ctx) (c : class) (o : obj),
+    ctx_linear x = true -> ctx_marker_free x = true -> ctx_embeds x = [o] ->
+    extract_o (grpc_wrap T (plug x (Sentinel c))) = Some o /\
+    extract_o (transport_o (grpc_wrap T (plug x (Sentinel c)))) = Some o.
+Proof. exact embed_survives_linear. Qed.
+Print Assumptions C19_embed_survives_linear.
 
 Example C19_ex_embed_hypotheses :
   ctx_marker_free C19_ex_ctx = true /\ ctx_embeds C19_ex_ctx = [C19_ex_obj].
@@ -181,8 +340,15 @@ Proof. vm_compute. split; reflexivity. Qed.
 Example C19_ex_embed_survives :
   extract_o (grpc_wrap std_tables (plug C19_ex_ctx (Sentinel ErrConflict))) = Some C19_ex_obj.
 Proof.
-  exact (proj1 (C19_embed_survives std_tables C19_std_tables_ok C19_ex_ctx ErrConflict C19_ex_obj
-                  (proj1 C19_ex_embed_hypotheses) (proj2 C19_ex_embed_hypotheses))).
+  exact (proj1 (C19_embed_survives_linear std_tables C19_std_tables_ok C19_ex_ctx ErrConflict C19_ex_obj
+                  eq_refl (proj1 C19_ex_embed_hypotheses) (proj2 C19_ex_embed_hypotheses))).
+Qed.
+
+Example C19_ex_embed_survives_tree :
+  extract_o (grpc_wrap std_tables (plug C19_ex_tree_ctx (Sentinel ErrConflict))) = Some C19_ex_obj.
+Proof.
+  exact (proj1 (C19_embed_survives std_tables C19_std_tables_ok C19_ex_tree_ctx ErrConflict C19_ex_obj
+                  eq_refl eq_refl eq_refl)).
 Qed.
 
 (* the marker-freeness hypothesis cannot be dropped: a wrap text with a marker hides the object *)
@@ -256,12 +422,21 @@ Proof. vm_compute. repeat split; reflexivity. Qed.
 (** * Map iteration order in GRPCStatusCode is irrelevant *)
 
 Theorem C19_is_chain_unique :
-  forall (e : err) (c1 c2 : class), is_chain e c1 = true -> is_chain e c2 = true -> c1 = c2.
+  forall (e : err) (c1 c2 : class),
+    uniform e = true -> is_chain e c1 = true -> is_chain e c2 = true -> c1 = c2.
 Proof. exact is_chain_unique. Qed.
 Print Assumptions C19_is_chain_unique.
 
+(* chains (no layer with several operands) need no side condition *)
+Theorem C19_is_chain_unique_linear :
+  forall (e : err) (c1 c2 : class),
+    err_linear e = true -> is_chain e c1 = true -> is_chain e c2 = true -> c1 = c2.
+Proof. exact is_chain_unique_linear. Qed.
+Print Assumptions C19_is_chain_unique_linear.
+
 Theorem C19_any_matching_row_is_found :
   forall (T : tables) (e : err) (row : class * code),
+    uniform e = true ->
     NoDup (map fst (t_e2c T)) -> In row (t_e2c T) -> is_chain e (fst row) = true ->
     find (fun r => is_chain e (fst r)) (t_e2c T) = Some row.
 Proof. exact any_matching_row_is_found. Qed.
